@@ -35,7 +35,13 @@ Tie to the source:
       (fact: which name _load_or_run hands to save_fn);
   (6) keys whose repr contains a path separator / '%' / '..' / NUL (second switch value of ExpectedFacts.v:
       NameRepr = snapshot with the recorded finding C19-slash-in-key, NameReprEsc = after
-      fixes/C19-slash-in-key.diff).
+      fixes/C19-slash-in-key.diff);
+  (7) the LIFE of a Cache object and its directory (facts gen_lookup / gen_mkdir, pinned by C19_life_facts_pinned: _load_or_run
+      decides by file.exists() alone, parallelise creates cache.tmp_dir as its first statement): results that are None / falsy
+      through the repeated-run oracle and the kill points; sessions in which the cache directory is removed (shutil.rmtree),
+      cache.tmp_dir re-assigned to a directory that does not exist, a new object constructed, the object copied through pickle,
+      judged by the oracle and compared event by event with the big-step model coq/cachefs/CacheLife.v; scan.steady_state run,
+      repeated, wiped, run again with one Cache object.
 """
 
 from __future__ import annotations
@@ -77,6 +83,18 @@ _LOAD_OR_RUN_TEMP = (
     "    tmp = file.with_name(f'{file.name}.{os.getpid()}.tmp')\n    cache.save_fn(tmp, res)\n    os.replace(tmp, file)\nreturn (k, res)"
 )
 _CACHE_FIELDS = ["tmp_dir", "name_fn", "load_fn", "save_fn"]
+# _load_or_run + helper as seeded/C19-7 wrote them: "nothing usable" is signalled by None, so a stored None is a miss
+_LOAD_OR_RUN_NONE = (
+    "k, v = inp\nif cache is None:\n    return (k, fn(v))\nfile = cache.tmp_dir / cache.name_fn(k)\n"
+    "res = cast(Tout | None, _try_load(file, cache))\nif res is None:\n    res = fn(v)\n    cache.save_fn(file, res)\nreturn (k, res)"
+)
+_TRY_LOAD_NONE = (
+    "if not file.exists():\n    return None\ntry:\n    return cache.load_fn(file)\n"
+    "except (EOFError, pickle.UnpicklingError):\n    return None"
+)
+_MKDIR_AT_RUN = "if cache is not None:\n    cache.tmp_dir.mkdir(parents=True, exist_ok=True)"
+# Cache.__post_init__ as seeded/C19-8 wrote it: the directory is created when the object is constructed
+_POST_INIT_MKDIR = "self.tmp_dir = Path(self.tmp_dir)\nself.tmp_dir.mkdir(parents=True, exist_ok=True)"
 
 _SHAPES = {
     "_pickle_load": "with file.open('rb') as fp:\n    return pickle.load(fp)",
@@ -173,7 +191,7 @@ def _classify_save(fn: ast.FunctionDef | None) -> str:
 
 def extract_facts() -> dict[str, Any]:
     facts: dict[str, Any] = {"save": "SaveUnknown", "load_or_run": False, "wiring": False, "name": "NameUnknown",
-                             "object": "CoUnknown", "save_name": "SnUnknown", "why": []}
+                             "object": "CoUnknown", "save_name": "SnUnknown", "lookup": "LkUnknown", "mkdir": "MkUnknown", "why": []}
     try:
         tree = ast.parse((common.REPO / "src/mxlpy/parallel.py").read_text())
         scan = ast.parse((common.REPO / "src/mxlpy/scan.py").read_text())
@@ -211,6 +229,13 @@ def extract_facts() -> dict[str, Any]:
     facts["save_name"] = "SnFinal" if lor == _SHAPES["_load_or_run"] else "SnTemp" if lor == _LOAD_OR_RUN_TEMP else "SnUnknown"
     if facts["save_name"] != "SnFinal":
         facts["why"].append("_load_or_run does not hand `file` itself to cache.save_fn")
+    # what _load_or_run takes for "result available": the existence of the file / a helper's non-None answer
+    if lor == _SHAPES["_load_or_run"]:
+        facts["lookup"] = "LkExists"
+    elif lor == _LOAD_OR_RUN_NONE and "_try_load" in fns and _norm(fns["_try_load"]) == _TRY_LOAD_NONE:
+        facts["lookup"] = "LkNoneIsMiss"  # seeded/C19-7
+    if facts["lookup"] != "LkExists":
+        facts["why"].append("_load_or_run does not decide by file.exists() alone")
     # does a Cache object carry state from run to run?  Stateless: the dataclass has exactly the four documented
     # fields and no methods, and _load_or_run asks the directory (file.exists())
     if cache_cls is not None:
@@ -225,9 +250,20 @@ def extract_facts() -> dict[str, Any]:
             facts["object"] = "CoListingMemo"  # seeded/C19-5
     if facts["object"] != "CoStateless":
         facts["why"].append("the Cache class is not the plain four-field dataclass / _load_or_run does not ask the directory")
+    # when the cache directory is created: first statement of parallelise / at construction of the Cache object
+    par = fns.get("parallelise")
+    if par is not None:
+        pb = _body(par)
+        mkdirs = [n for n in ast.walk(par) if isinstance(n, ast.Attribute) and n.attr in ("mkdir", "makedirs")]
+        post = next((s for s in (cache_cls.body if cache_cls is not None else []) if isinstance(s, ast.FunctionDef) and s.name == "__post_init__"), None)
+        if pb and ast.unparse(pb[0]) == _MKDIR_AT_RUN:
+            facts["mkdir"] = "MkAtRun"
+        elif not mkdirs and post is not None and _norm(post) == _POST_INIT_MKDIR:
+            facts["mkdir"] = "MkAtConstruct"  # seeded/C19-8
+    if facts["mkdir"] != "MkAtRun":
+        facts["why"].append("parallelise does not create cache.tmp_dir as its first statement")
     # wiring of parallelise
     w = True
-    par = fns.get("parallelise")
     if par is None:
         w = False
     else:
@@ -284,11 +320,14 @@ def gen() -> dict[str, Any]:
     text = (
         "(* REGENERATED from src/mxlpy/parallel.py (_pickle_save, _load_or_run, _pickle_load, _pickle_name, Cache,\n"
         "   parallelise) and src/mxlpy/scan.py by harness/c19.py; do not edit.  An unrecognised shape yields\n"
-        "   SaveUnknown / false / NameUnknown / CoUnknown / SnUnknown, which breaks C19_facts_pinned / C19_object_facts_pinned. *)\n"
-        "From CacheFS Require Import CacheKeys CacheFS CacheCodec CacheObject.\n"
+        "   SaveUnknown / false / NameUnknown / CoUnknown / SnUnknown / LkUnknown / MkUnknown, which breaks C19_facts_pinned /\n"
+        "   C19_object_facts_pinned / C19_life_facts_pinned. *)\n"
+        "From CacheFS Require Import CacheKeys CacheFS CacheCodec CacheObject CacheLife.\n"
         f"Definition gen_cache_facts : cache_facts := mkCacheFacts {f['save']} {common.cbool(f['load_or_run'])} {common.cbool(f['wiring'])} {f['name']}.\n"
         f"Definition gen_cache_object : cache_object_kind := {f['object']}.\n"
         f"Definition gen_save_name : save_name_kind := {f['save_name']}.\n"
+        f"Definition gen_lookup : lookup_kind := {f['lookup']}.\n"
+        f"Definition gen_mkdir : mkdir_kind := {f['mkdir']}.\n"
     )
     common.write_if_changed(common.area_dir(AREA) / "GenCacheFacts.v", text)
     return f
@@ -361,6 +400,9 @@ ORACLE_FNS = {
     "tup": lambda x: (x, x + 1),
     "dict": lambda x: {"v": x, "sq": x * x},
     "text": lambda x: "r" * (x % 7) + str(x),
+    # results that are None / falsy: legal results (Tout is unconstrained), to be stored and returned like any other
+    "maybe": lambda x: None if x % 3 == 0 else x * x,
+    "falsy": lambda x: [None, 0, "", (), False, 0.0, x][x % 7],
 }
 
 
@@ -891,6 +933,13 @@ SPECIAL_CFG = {"name": "P-special-seq", "kind": "map", "fn": "affine", "parallel
 SLASH_CFG = {"name": "P-slash-seq", "kind": "map", "fn": "sq", "parallel": False, "points": "few",
              "items": [[_sk("ATP/ADP"), 2], [{"t": "tuple", "v": [_sk("x/y"), _ik(1)]}, 3], [_sk("/abs"), 4], [_sk("../up"), 5], [_sk("ATP%2FADP"), 6], [_sk("ATP_ADP"), 7], [_sk("ATPADP"), 8]]}
 SLASH_FID = "C19-slash-in-key"
+# results that are None / falsy (a worker reporting "no result" as None): stored, returned and NOT recomputed like any other
+NONE_CFGS = [
+    {"name": "O-falsy-seq", "kind": "map", "fn": "falsy", "parallel": False, "points": "few",
+     "items": [[_sk(f"f{i}"), i] for i in range(7)]},
+    {"name": "O-none-pool", "kind": "map", "fn": "maybe", "parallel": True, "workers": 2, "points": "few",
+     "items": [[_ik(20), 3], [_ik(21), 4], [_ik(22), 6]]},
+]
 
 
 def slash_reproduces(reps: list[dict]) -> tuple[bool, str]:
@@ -944,41 +993,211 @@ def session_group(sess: dict, root: Path, gi: int) -> list[dict]:
     ]
 
 
+def _before_text(run: dict) -> str:
+    acts = run.get("before") or []
+    words = {"wipe": "the cache directory was removed (shutil.rmtree)", "retarget": "cache.tmp_dir was assigned directory #{}",
+             "new": "a new Cache object was constructed for directory #{}", "copy": "the Cache object was copied through pickle"}
+    return ("; before it: " + ", ".join(words[a[0]].format(*a[1:]) for a in acts)) if acts else ""
+
+
 def judge_session(sess: dict, reps: list[dict]) -> tuple[str | None, list[dict] | None]:
-    """oracle on one session -> (what is wrong | None, per-run reports of the cached session)"""
+    """oracle on one session -> (what is wrong | None, per-run reports of the cached session).  Own book-keeping of
+    the directories: directory id -> {file name: input}; a directory that was wiped / never used holds nothing."""
     unc, cached = reps
     for nm, rep in (("uncached", unc), ("cached", cached)):
         r = rep.get("result")
         if r is None or r.get("status") != "returned" or not isinstance(r.get("value"), list) or len(r["value"]) != len(sess["runs"]):
             return f"{nm} session did not finish: exit={rep.get('exit')} result={json.dumps(r)[:200]}", None
     fn = ORACLE_FNS[sess["fn"]]
-    seen: dict[str, int] = {}
+    dirs: dict[int, dict[str, int]] = {}
+    cur = 0
     for i, (run, u, c) in enumerate(zip(sess["runs"], unc["result"]["value"], cached["result"]["value"])):
-        mode = "parallel" if run["parallel"] else "sequential"
+        for act in run.get("before") or []:
+            if act[0] == "wipe":
+                dirs.pop(cur, None)
+            elif act[0] in ("retarget", "new"):
+                cur = int(act[1])
+        seen = dirs.setdefault(cur, {})
+        mode = ("parallel" if run["parallel"] else "sequential") + _before_text(run)
         want = [[k, o_canon(fn(x))] for k, x in run["items"]]
         if u.get("status") != "returned":
             return f"run #{i} WITHOUT cache raised {u.get('exc')}", None
         if c.get("status") != "returned":
             return f"run #{i} ({mode}) of the session raised {c.get('exc')}: {c.get('msg')}", cached["result"]["value"]
-        if c["value"] != u["value"]:
+        if json.dumps(c["value"], sort_keys=True) != json.dumps(u["value"], sort_keys=True):
             return f"run #{i} ({mode}) of the session returned results that differ from the run without cache", cached["result"]["value"]
-        if u["value"] != want:
+        if json.dumps(u["value"], sort_keys=True) != json.dumps(want, sort_keys=True):
             return None, None  # not C19's business (reference = the uncached run); no verdict on this session
         new = [(final_name(k), x) for k, x in run["items"] if final_name(k) not in seen]
         if sorted(c["calls"]) != sorted(str(x) for _n, x in new):
             on_disk = len(run["items"]) - len(new)
+            stored = sorted(json.dumps(o_canon(fn(x))) for k, x in run["items"] if final_name(k) in seen)
             return (f"run #{i} ({mode}, same Cache object as the earlier runs) evaluated fn on inputs {sorted(c['calls'])}; {on_disk} of its {len(run['items'])} results "
-                    f"were on disk, expected evaluations: {sorted(str(x) for _n, x in new)}"), cached["result"]["value"]
+                    f"were on disk (stored results: {stored[:8]}), expected evaluations: {sorted(str(x) for _n, x in new)}"), cached["result"]["value"]
         for n, x in new:
             seen[n] = x
         files = c["files"] if not c["files"].get("<no-dir>") else {}
         if sorted(files) != sorted(seen):
-            return f"after run #{i} the directory holds {sorted(files)}, expected exactly {sorted(seen)}", cached["result"]["value"]
+            return f"after run #{i} ({mode}) the directory holds {sorted(files)}, expected exactly {sorted(seen)}", cached["result"]["value"]
         for n, x in seen.items():
             ent = files[n]
-            if "hex" not in ent or bytes.fromhex(ent["hex"]) != pickle.dumps(fn(x)):
+            # what the file must do is LOAD to the result (the bytes of another pickle protocol would do as well)
+            try:
+                held = json.dumps(o_canon(pickle.loads(bytes.fromhex(ent["hex"]))), sort_keys=True) if "hex" in ent else None  # noqa: S301
+            except Exception:  # noqa: BLE001
+                held = None
+            if held != json.dumps(o_canon(fn(x)), sort_keys=True):
                 return f"after run #{i} the file {n!r} does not hold the pickled result", cached["result"]["value"]
     return None, cached["result"]["value"]
+
+
+# ---------------------------------------------------------------------------------------
+# LIFE of a Cache object and its directory: results that are None / falsy, the directory wiped between runs, the
+# object pointed at another directory, new objects, pickled copies (one process, as in a notebook)
+# ---------------------------------------------------------------------------------------
+
+
+def make_life_sessions(rng, thorough: bool) -> list[dict]:
+    def items_of(keys: list[dict], base: int) -> list[list]:
+        return [[k, base + i] for i, k in enumerate(keys)]
+
+    ints = items_of([_ik(i) for i in range(6)], 3)  # inputs 3..8: 'maybe' gives None for 3 and 6
+    A, B = ints[:4], ints[4:]
+    F = items_of([_sk(f"f{i}") for i in range(7)], 0)  # 'falsy': None, 0, '', (), False, 0.0, 6
+    run = lambda items, par, before=(), w=2: {"items": items, "parallel": par, "workers": w, "before": [list(b) for b in before]}  # noqa: E731
+    out = [
+        # the demo of seeded/C19-7: a repeated run over results some of which are None
+        {"name": "L-none-seq", "fn": "maybe", "runs": [run(A, False), run(A, False), run(A + B, False)]},
+        {"name": "L-none-pool", "fn": "maybe", "runs": [run(A, True), run(A, True), run(B + A, False)]},
+        {"name": "L-falsy-pool-seq", "fn": "falsy", "runs": [run(F, True), run(F, False), run(F[::-1], True, (), 3)]},
+        # the demo of seeded/C19-8: one long-lived object, the directory wiped to force a recomputation
+        {"name": "L-wipe-seq", "fn": "sq", "runs": [run(A, False), run(A, False), run(A, False, [["wipe"]]), run(A + B, False)]},
+        {"name": "L-wipe-pool", "fn": "affine", "runs": [run(A, True), run(A, True, [["wipe"]]), run(A, True)]},
+        {"name": "L-retarget", "fn": "tup", "runs": [run(A, False), run(A, True, [["retarget", 1]]), run(A + B, False, [["retarget", 0]]),
+                                                      run(B, True, [["retarget", 2]])]},
+        {"name": "L-copy-wipe", "fn": "maybe", "runs": [run(A, False), run(A, False, [["wipe"], ["copy"]]), run(A, True, [["copy"]])]},
+        {"name": "L-new-objects", "fn": "dict", "runs": [run(A, True), run(A, False, [["new", 0]]), run(B, False, [["new", 1]]),
+                                                         run(A + B, True, [["wipe"], ["new", 1]]), run(A, False, [["wipe"], ["retarget", 0]])]},
+    ]
+    for r in range(5 if thorough else 1):
+        keys = gen_keyset(rng, rng.randint(3, 6))
+        univ = items_of(keys, rng.randint(0, 12))
+        runs = []
+        for j in range(rng.randint(3, 5)):
+            sub = [it for it in univ if rng.random() < 0.65] or [univ[0]]
+            rng.shuffle(sub)
+            before = []
+            if j > 0:
+                for _ in range(rng.choice([0, 1, 1, 2])):
+                    a = rng.choice(["wipe", "retarget", "new", "copy", "wipe"])
+                    before.append([a, rng.randint(0, 2)] if a in ("retarget", "new") else [a])
+            runs.append(run(sub, rng.random() < 0.5, before, rng.randint(1, 3)))
+        out.append({"name": f"L-rand{r}", "fn": rng.choice(["maybe", "falsy", "sq", "tup"]), "runs": runs})
+    return out
+
+
+def coq_lcase(sess: dict, runs_rep: list[dict]) -> str:
+    """the session as a history for the big-step model CacheLife.v: events between the runs, per run what was observed"""
+    fn = ORACLE_FNS[sess["fn"]]
+    univ: dict[str, tuple[int, int]] = {}
+    name_ids: dict[str, int] = {}
+    for run in sess["runs"]:
+        for k, x in run["items"]:
+            kj = json.dumps(k, sort_keys=True)
+            univ.setdefault(kj, (len(univ) + 1, x))
+            name_ids.setdefault(final_name(k), len(name_ids) + 1)
+    vals: dict[str, int] = {}
+    fns_t: dict[int, int] = {}
+    for _kj, (_kid, x) in univ.items():
+        fns_t[x] = vals.setdefault(json.dumps(o_canon(fn(x)), sort_keys=True), len(vals) + 1)
+    nones = [vid for v, vid in vals.items() if v == "null"]
+    names = clist(f"({cn(kid)}, {cn(name_ids[final_name(json.loads(kj))])})" for kj, (kid, _x) in univ.items())
+    fns = clist(f"({cn(x)}, {cz(v)})" for x, v in sorted(fns_t.items()))
+    evs = ["OEv (LNew 0)"]
+    for run, rep in zip(sess["runs"], runs_rep):
+        for act in run.get("before") or []:
+            if act[0] == "wipe":
+                evs.append("OEv LWipe")
+            elif act[0] == "retarget":
+                evs.append(f"OEv (LRetarget {cn(int(act[1]))})")
+            elif act[0] == "new":
+                evs.append(f"OEv (LNew {cn(int(act[1]))})")
+        items = clist(f"({cn(univ[json.dumps(k, sort_keys=True)][0])}, {cn(x)})" for k, x in run["items"])
+        if rep.get("status") == "returned":
+            if [kv[0] for kv in rep["value"]] == [k for k, _ in run["items"]]:
+                ores = "(Some " + clist(f"({cn(univ[json.dumps(k, sort_keys=True)][0])}, {cz(vals.get(json.dumps(v, sort_keys=True), -1))})" for k, v in rep["value"]) + ")"
+            else:
+                ores = "(Some [(0%N, (-3)%Z)])"
+        else:
+            ores = "None"
+        files = rep.get("files") or {}
+        stored = []
+        for k, _x in run["items"]:
+            ent = files.get(final_name(k))
+            if not isinstance(ent, dict):
+                stored.append("None")
+                continue
+            try:
+                vid = vals.get(json.dumps(o_canon(pickle.loads(bytes.fromhex(ent["hex"]))), sort_keys=True), -1)  # noqa: S301
+            except Exception:  # noqa: BLE001
+                vid = -1
+            stored.append(f"(Some {cz(vid)})")
+        evs.append(f"ORun {items} ({ores}, {cnat(len(rep.get('calls', [])))}, {clist(stored)})")
+    return f"({names}, {fns}, {clist(cz(v) for v in nones)}, {clist(evs)})"
+
+
+def lcorr_file(cases: list[str]) -> str:
+    return (
+        "From Coq Require Import List NArith ZArith.\nImport ListNotations.\nFrom MxlBase Require Import ListX.\n"
+        "From CacheFS Require Import CacheLife GenCacheFacts.\n"
+        "Definition cases : list lcase := [\n  " + ";\n  ".join(cases) + "\n].\n"
+        "Definition mismatches := filter_idx (fun c => negb (lcase_ok gen_lookup gen_mkdir c)) cases.\n"
+        "Eval vm_compute in mismatches.\n"
+    )
+
+
+SCAN_LIFE = {"to_scan": {"k1": [1, 2, 3]}, "steps": ["run", "run", "wipe", "run", "run"]}
+
+
+def scan_life_group(root: Path, parallel: bool, gi: int) -> list[dict]:
+    d = root / f"scanlife-{gi}"
+    base = {"kind": "scan_life", "to_scan": SCAN_LIFE["to_scan"], "steps": SCAN_LIFE["steps"], "parallel": parallel, "timeout": 240}
+    return [
+        {**base, "id": "unc", "cache_dir": str(d / "cache-unused"), "side": str(d / "unc"), "use_cache": False},
+        {**base, "id": "life", "cache_dir": str(d / "cache"), "side": str(d / "life")},
+    ]
+
+
+def judge_scan_life(reps: list[dict]) -> str | None:
+    """scan.steady_state(cache=) run, repeated, the directory wiped, run, repeated -- one Cache object"""
+    unc, cached = reps
+    n = len(next(iter(SCAN_LIFE["to_scan"].values())))
+    names = sorted(final_name({"t": "int", "v": i}) for i in range(n))
+    runs = [s for s in SCAN_LIFE["steps"] if s == "run"]
+    for nm, rep in (("uncached", unc), ("cached", cached)):
+        r = rep.get("result")
+        if r is None or r.get("status") != "returned" or not isinstance(r.get("value"), list) or len(r["value"]) != len(runs):
+            return f"{nm} scan session did not finish: exit={rep.get('exit')} result={json.dumps(r)[:200]}"
+    want_calls = []
+    present = False
+    for s in SCAN_LIFE["steps"]:
+        if s == "wipe":
+            present = False
+        else:
+            want_calls.append(0 if present else n)
+            present = True
+    for i, (u, c) in enumerate(zip(unc["result"]["value"], cached["result"]["value"])):
+        if u.get("status") != "returned":
+            return None  # no reference
+        if c.get("status") != "returned":
+            return f"scan.steady_state #{i} with the long-lived Cache object raised {c.get('exc')}: {c.get('msg')} (steps {SCAN_LIFE['steps']})"
+        if c["value"] != u["value"]:
+            return f"scan.steady_state #{i} with cache returned frames that differ from the scan without cache"
+        if len(c["calls"]) != want_calls[i]:
+            return f"scan.steady_state #{i} (steps {SCAN_LIFE['steps']}) ran the worker {len(c['calls'])} times, expected {want_calls[i]}"
+        if c["files"] != names:
+            return f"after scan.steady_state #{i} the cache directory holds {c['files']}, expected {names}"
+    return None
 
 
 def coq_scase(sess: dict, runs_rep: list[dict]) -> str:
@@ -1152,9 +1371,13 @@ def check(run: Run) -> None:
         "or, after the repair, one more kill-point configuration).  SESSIONS: 2-4 runs in one process with ONE Cache object (parallel-parallel-grown, "
         "sequential-parallel-parallel, overlapping key sets, random sub-lists of a random key universe), every run judged against the uncached run and "
         "against 'evaluations = keys not yet on disk', the whole session compared with the small-step model.  CUSTOM TRIPLES: suffix-dependent format, "
-        "pandas to_pickle/read_pickle on *.pkl.gz, a recording and a name-stamping writer, sequential / pool / other mode / new interpreter.  A case is one "
-        "kill-then-rerun group, one session or one custom-triple group; a kill group is non-trivial iff the kill really happened mid-run, a session iff it "
-        "has at least two runs"
+        "pandas to_pickle/read_pickle on *.pkl.gz, a recording and a name-stamping writer, sequential / pool / other mode / new interpreter.  "
+        "NONE / FALSY RESULTS: fn returning None, 0, '', (), False, 0.0 (two fixed configurations through the repeated-run oracle and the kill points).  LIFE SESSIONS "
+        "(own stream c19-life): 3-5 runs in one process, between them the cache directory removed with shutil.rmtree, cache.tmp_dir re-assigned to a nested directory that "
+        "does not exist, a new Cache object, a pickled copy of the object (8 fixed histories + random ones), judged like sessions per CURRENT directory and compared with the "
+        "big-step model CacheLife.v; scan.steady_state run / repeated / directory removed / run / repeated with one Cache object.  A case is one "
+        "kill-then-rerun group, one session, one life session, one scan session or one custom-triple group; a kill group is non-trivial iff the kill really happened mid-run, "
+        "a session iff it has at least two runs"
     )
     proofs_ok = run.check_proofs(AREA, PROPS)
     run.assumptions += [
@@ -1185,6 +1408,10 @@ def check(run: Run) -> None:
          if facts["expected_name"] == "NameRepr" else
          "ExpectedFacts.v = " + facts["expected_name"]),
         "file-system limits on a name other than the path separator (more than 255 bytes: ENAMETOOLONG) are outside the model",
+        "life of a Cache object and its directory: big-step model CacheLife.v (complete runs, whole files, parallel=False order, several directories; events new object / "
+        "tmp_dir re-assigned / directory removed / run); which results are None is a parameter (isnone); tie: facts gen_lookup (what _load_or_run takes for 'result available') and "
+        "gen_mkdir (where the directory is created) + life sessions on the real code compared event by event with the model; linked to the small-step model by stating the same "
+        "counts, not by a refinement proof; evaluations of a run that raised are not compared (pool workers may or may not have started)",
     ]
 
     rng = common.rng_for(run.seed, "c19")
@@ -1207,19 +1434,26 @@ def _check_body(run: Run, rng, root: Path, thorough: bool, n_drivers: int, proof
     if slash_repaired:
         # with percent-encoded names the keys with a path separator are an ordinary configuration
         cfgs.append(SLASH_CFG)
+    cfgs += NONE_CFGS
     known = {f["id"]: f for f in common.load_known_findings(PROP)}
     # own random streams: the new stages leave the kill-point selection of the older ones as it was
     sessions = make_sessions(common.rng_for(run.seed, "c19-sessions"), thorough)
     codec_cfgs = make_codec_cfgs(common.rng_for(run.seed, "c19-codecs"), thorough)
+    life = make_life_sessions(common.rng_for(run.seed, "c19-life"), thorough)
+    scan_life = [scan_life_group(root, False, 0)] + ([scan_life_group(root, True, 1)] if thorough else [])
     # ---- phase 1: transparency + second run, and the event structure of a clean run ----------
     p1 = [phase1_group(c, root, i) for i, c in enumerate(cfgs)] + [phase1_group(COLLISION_CFG, root, 999)]
     n_p1 = len(p1)
     extra = ([session_group(s, root, i) for i, s in enumerate(sessions)] + [codec_group(c, root, i) for i, c in enumerate(codec_cfgs)]
+             + [session_group(s, root, 500 + i) for i, s in enumerate(life)] + scan_life
              + [phase1_group(SLASH_CFG, root, 998)])
     all_reps = run_groups(p1 + extra, root, "p1", n_drivers)
     p1_reps = all_reps[:n_p1]
     sess_reps = all_reps[n_p1 : n_p1 + len(sessions)]
     codec_reps = all_reps[n_p1 + len(sessions) : n_p1 + len(sessions) + len(codec_cfgs)]
+    o_life = n_p1 + len(sessions) + len(codec_cfgs)
+    life_reps = all_reps[o_life : o_life + len(life)]
+    scan_life_reps = all_reps[o_life + len(life) : o_life + len(life) + len(scan_life)]
     slash_reps = all_reps[-1]
     ctxs: list[Ctx | None] = []
     coq_cases: list[tuple[str, str]] = []  # (label, text)
@@ -1318,6 +1552,33 @@ def _check_body(run: Run, rng, root: Path, thorough: bool, n_drivers: int, proof
     if sessions:
         run.sample({"session": sessions[0], "runs": [{k: r.get(k) for k in ("status", "calls")} | {"files": sorted(r.get("files", {}))}
                                                      for r in ((sess_reps[0][1].get("result") or {}).get("value") or []) if isinstance(r, dict)]})
+
+    # ---- life of a Cache object and its directory: None / falsy results, wiped / re-targeted directories, new objects --
+    lcases: list[tuple[str, str]] = []
+    for sess, reps in zip(life, life_reps):
+        bad, runs_rep = judge_session(sess, reps)
+        dist["life sessions (None/falsy results, wipe, retarget, new object, pickled copy)"] = dist.get("life sessions (None/falsy results, wipe, retarget, new object, pickled copy)", 0) + 1
+        dist["life session runs"] = dist.get("life session runs", 0) + len(sess["runs"])
+        run.count_case(("life", sess["name"], json.dumps(sess["runs"], sort_keys=True)), nontrivial=len(sess["runs"]) >= 2)
+        if bad:
+            n_viol += 1
+            if n_viol <= 4:
+                run.violation(f"{sess['name']}: {bad}", {"kind": "session", "session": sess})
+        if runs_rep is not None:
+            try:
+                lcases.append((sess["name"], coq_lcase(sess, runs_rep)))
+            except Exception as e:  # noqa: BLE001
+                run.broken_correspondence.append(f"life session {sess['name']}: cannot encode the observation for the model: {type(e).__name__}: {e}")
+        elif not bad:
+            run.note(f"life session {sess['name']}: the uncached run differs from an independent evaluation of fn; no verdict")
+    for g, reps in zip(scan_life, scan_life_reps):
+        bad = judge_scan_life(reps)
+        dist["scan.steady_state sessions with a wiped cache directory"] = dist.get("scan.steady_state sessions with a wiped cache directory", 0) + 1
+        run.count_case(("scan-life", g[1]["parallel"]), nontrivial=True)
+        if bad:
+            n_viol += 1
+            if n_viol <= 4:
+                run.violation(f"L-scan-ss-{'pool' if g[1]['parallel'] else 'seq'}: {bad}", {"kind": "scanlife", "parallel": g[1]["parallel"]})
 
     # ---- custom (name_fn, save_fn, load_fn) triples ---------------------------------------------
     handed: list[str] = []
@@ -1436,9 +1697,12 @@ def _check_body(run: Run, rng, root: Path, thorough: bool, n_drivers: int, proof
         files["c19sessions"] = scorr_file([t for _, t in scases])
     if handed:
         files["c19codec"] = codec_corr_file(handed)
+    if lcases:
+        files["c19life"] = lcorr_file([t for _, t in lcases])
     res = common.coq_eval_many(AREA, files, timeout_s=600)
     mism = 0
-    for fname, label, items in (("c19sessions", "session", [n for n, _ in scases]), ("c19codec", "name handed to a custom save_fn, save event", handed)):
+    for fname, label, items in (("c19sessions", "session", [n for n, _ in scases]), ("c19codec", "name handed to a custom save_fn, save event", handed),
+                                ("c19life", "life session (big-step model CacheLife.v)", [n for n, _ in lcases])):
         if fname not in files:
             continue
         ok, out = res[fname]
@@ -1487,7 +1751,7 @@ def _strip(sc: dict) -> dict:
 
 def replay(rep: dict) -> int:
     r = rep.get("replay", {})
-    if r.get("kind") not in ("group", "session", "codec"):
+    if r.get("kind") not in ("group", "session", "codec", "scanlife"):
         print("nothing to replay:", rep.get("what"))
         return 1
     NAME_MODE[0] = expected_name_kind()
@@ -1498,8 +1762,18 @@ def replay(rep: dict) -> int:
             reps = run_driver(session_group(sess, root, 0), root, "rs")
             bad, runs_rep = judge_session(sess, reps)
             for i, rr in enumerate(runs_rep or []):
-                print(f"run #{i}: parallel={sess['runs'][i]['parallel']} keys={len(sess['runs'][i]['items'])} status={rr.get('status')} "
+                print(f"run #{i}: before={sess['runs'][i].get('before') or []} parallel={sess['runs'][i]['parallel']} keys={len(sess['runs'][i]['items'])} status={rr.get('status')} {rr.get('exc', '')} "
                       f"evaluated={sorted(rr.get('calls', []))} files={sorted(rr.get('files', {}))}")
+            print("oracle:", f"property VIOLATED on this input: {bad}" if bad else "property holds on this input")
+            return 1 if bad else 0
+        finally:
+            shutil.rmtree(root, ignore_errors=True)
+    if r["kind"] == "scanlife":
+        try:
+            reps = run_driver(scan_life_group(root, bool(r.get("parallel")), 0), root, "rl")
+            bad = judge_scan_life(reps)
+            for i, rr in enumerate((reps[1].get("result") or {}).get("value") or []):
+                print(f"scan #{i}: status={rr.get('status')} {rr.get('exc', '')} worker calls={len(rr.get('calls', []))} files={rr.get('files')}")
             print("oracle:", f"property VIOLATED on this input: {bad}" if bad else "property holds on this input")
             return 1 if bad else 0
         finally:
